@@ -21,9 +21,14 @@ class PanicExit(Exception):
     pass
 
 
+BITS = 64      # integer width of the reference semantics (64 for bash, 32 for batch)
+
+
 def wrap64(n):
-    n &= (1 << 64) - 1
-    return n - (1 << 64) if n >= (1 << 63) else n
+    """wrap to the current integer width (the name is historical)"""
+    m = 1 << BITS
+    n &= m - 1
+    return n - m if n >= (m >> 1) else n
 
 
 def go_div(a, b):
@@ -242,6 +247,9 @@ class Interp:
         # writes a global that a suspended expression has already read are treated as undefined.
         self.cur_reads = set()
         self.pending = []
+        self.depth = 0
+        self.panic_in_func = False
+        self.empty_substr = False       # a subscript was taken of an empty string (s[0:0])
 
     def tick(self):
         self.steps += 1
@@ -340,6 +348,8 @@ class Interp:
             a = self.ev(e[2], env, genv) if e[2] is not None else 0
             b = self.ev(e[3], env, genv) if e[3] is not None else None
             s = self.ev(e[1], env, genv)
+            if s == "":
+                self.empty_substr = True
             if b is None:
                 b = len(s)
             if not (0 <= a <= b <= len(s)):
@@ -370,11 +380,13 @@ class Interp:
         env = {n: v for (n, _), v in zip(params, args)}
         self.pending.append(self.cur_reads)
         self.cur_reads = set()
+        self.depth += 1
         try:
             self.block(body, env, genv)
         except ReturnEx as r:
             return r.vals
         finally:
+            self.depth -= 1
             self.cur_reads = self.pending.pop()
         if rets:
             raise Undefined("missing return")
@@ -523,6 +535,7 @@ class Interp:
             self.emit(" ".join(self.fmt(v) for v in vals))
         elif k == "panic":
             self.emit("panic: " + self.fmt(self.ev(s[1], env, genv)))
+            self.panic_in_func = self.depth > 0
             raise PanicExit()
         elif k == "return":
             raise ReturnEx([self.ev(x, env, genv) for x in s[1]])
@@ -538,9 +551,14 @@ class Interp:
             raise Undefined("unsupported stmt " + k)
 
 
+LAST = None     # the interpreter of the last `interpret` call (flags: panic_in_func, empty_substr)
+
+
 def interpret(prog, max_steps=20000):
+    global LAST
     it = Interp(max_steps)
     out, status = it.run(prog)
+    LAST = it
     return out, status
 
 
@@ -1134,6 +1152,8 @@ def generate(rng, cfg, tries=50):
             continue
         except RecursionError:
             continue
+        g.kinds["_panic_in_func"] = LAST.panic_in_func
+        g.kinds["_empty_substr"] = LAST.empty_substr
         return prog, pp_program(prog), out, status, g.kinds
     return None
 
@@ -1329,5 +1349,7 @@ def generate2(rng, cfg, transform=None, tries=50):
             continue
         except RecursionError:
             continue
+        g.kinds["_panic_in_func"] = LAST.panic_in_func
+        g.kinds["_empty_substr"] = LAST.empty_substr
         return prog, pp_program(prog), out, status, g.kinds
     return None
